@@ -8,6 +8,7 @@ package c09
 import (
 	"context"
 	"fmt"
+	"regexp"
 	"sort"
 	"strings"
 	"testing"
@@ -33,6 +34,10 @@ type cfg struct {
 	// Resize: the alphabet has an event that changes remedy r1's window size (W <-> 2W), as a
 	// policy reload between two requests does
 	Resize bool
+	// Prefill: the history starts after this many other groups of remedy r2 have each sent a
+	// request (a start state with many tracked keys); the alphabet then has a request of a
+	// group never seen before and a clock step of 61 minutes
+	Prefill int
 }
 
 func (c cfg) String() string {
@@ -40,11 +45,17 @@ func (c cfg) String() string {
 	if c.Resize {
 		s += " +window-size-changes"
 	}
+	if c.Prefill > 0 {
+		s += fmt.Sprintf(" start=%d-other-groups-tracked", c.Prefill)
+	}
 	return s
 }
 
 var groups = []string{"A", "B", "Z", "a", ""} // Z = unknown value, a = unknown value that differs from a listed one only in case, "" = header absent
 var pct = map[string]int64{"A": 50, "B": 25}
+
+// freshGroup stands for a group header value no earlier request carried
+const freshGroup = "<new>"
 
 type event struct {
 	kind   string // "req" | "tick" | "resize"
@@ -77,6 +88,11 @@ func alphabet(c cfg) []event {
 		for _, g := range gs {
 			ev = append(ev, event{kind: "req", remedy: r, group: g})
 		}
+	}
+	if c.Prefill > 0 {
+		ev = []event{{kind: "req", remedy: 0, group: "A"}, {kind: "req", remedy: 0, group: "Z"}, {kind: "req", remedy: 1, group: freshGroup},
+			{kind: "tick", tick: "61m"}, {kind: "tick", tick: "boundary"}}
+		return ev
 	}
 	if c.Resize {
 		// fewer letters elsewhere: one unlisted group value is enough here
@@ -132,6 +148,7 @@ type model struct {
 	seen     map[string]int       // per (remedy, group): the number of changes it has been asked under
 	resumeAt map[string]time.Time // per (remedy, group): end of its transition (see Apply)
 	since    map[string][]time.Time
+	fresh    int
 }
 
 func newModel(c cfg) *model {
@@ -155,8 +172,19 @@ func (m *model) wOf(i int) time.Duration {
 
 func (m *model) W() time.Duration { return time.Duration(m.c.W) * time.Second }
 
-func (m *model) Apply(ei int) string {
-	e := m.alpha[ei]
+// prefill: other groups of remedy r2 send one request each (not part of the checked history,
+// but run through the same reference so that the reference knows their counters)
+func (m *model) prefill() {
+	for i := 0; i < m.c.Prefill; i++ {
+		if fail := m.apply(event{kind: "req", remedy: 1, group: fmt.Sprintf("o%d", i)}); fail != "" {
+			panic("prefill: " + fail)
+		}
+	}
+}
+
+func (m *model) Apply(ei int) string { return m.apply(m.alpha[ei]) }
+
+func (m *model) apply(e event) string {
 	if e.kind == "tick" {
 		var d time.Duration
 		switch e.tick {
@@ -164,6 +192,8 @@ func (m *model) Apply(ei int) string {
 			d = m.W() / 2
 		case "W":
 			d = m.W()
+		case "61m":
+			d = 61 * time.Minute
 		case "1ns":
 			d = time.Nanosecond
 		case "boundary":
@@ -182,6 +212,10 @@ func (m *model) Apply(ei int) string {
 		m.rem[0].Config.StrategyBasedThrottling.WindowSizeInSeconds = int(m.w0 / time.Second)
 		m.resizes++
 		return ""
+	}
+	if e.group == freshGroup {
+		m.fresh++
+		e.group = fmt.Sprintf("n%d", m.fresh)
 	}
 	m.nextReq++
 	hs := map[string]string{}
@@ -307,7 +341,29 @@ func (m *model) Key() string {
 		sort.Strings(ps)
 		rz += "," + strings.Join(ps, ",")
 	}
-	return fmt.Sprintf("phase=%d|%s|%s%s", now.UnixNano()%int64(2*m.W()), limit.VerifDump(m.state, now), strings.Join(rs, ","), rz)
+	key := fmt.Sprintf("phase=%d|%s|%s%s", now.UnixNano()%int64(2*m.W()), limit.VerifDump(m.state, now), strings.Join(rs, ","), rz)
+	if m.c.Prefill > 0 {
+		key = collapseOthers(key)
+	}
+	return key
+}
+
+var otherRe = regexp.MustCompile(`r2/[^;,|]*o\d+([:=][^;,|]*)`)
+
+// collapseOthers replaces the entries of the pre-filled groups by one entry per distinct value
+// with its multiplicity (no event of the alphabet names one of them).
+func collapseOthers(key string) string {
+	count := map[string]int{}
+	out := otherRe.ReplaceAllStringFunc(key, func(m string) string {
+		count[otherRe.FindStringSubmatch(m)[1]]++
+		return ""
+	})
+	var cs []string
+	for k, n := range count {
+		cs = append(cs, fmt.Sprintf("o*%sx%d", k, n))
+	}
+	sort.Strings(cs)
+	return strings.NewReplacer(";;", ";", ",,", ",").Replace(out) + "|others:" + strings.Join(cs, ";")
 }
 
 func configs() []cfg {
@@ -315,7 +371,7 @@ func configs() []cfg {
 	for _, a := range []int64{1, 2, 3} {
 		for _, w := range []int{1, 2} {
 			for _, al := range []string{"none", "allow", "block", "default25"} {
-				cs = append(cs, cfg{a, w, al, false})
+				cs = append(cs, cfg{Allowed: a, W: w, Alloc: al})
 			}
 		}
 	}
@@ -323,14 +379,16 @@ func configs() []cfg {
 	for _, a := range []int64{1, 2} {
 		for _, w := range []int{1, 2} {
 			for _, al := range []string{"none", "default25"} {
-				cs = append(cs, cfg{a, w, al, true})
+				cs = append(cs, cfg{Allowed: a, W: w, Alloc: al, Resize: true})
 			}
 		}
 	}
+	// a non-initial start state: 12000 other groups are tracked; a two-hour window
+	cs = append(cs, cfg{Allowed: 2, W: 7200, Alloc: "default25", Prefill: 12000})
 	// a window length that does not divide a day (grid origin matters)
 	for _, a := range []int64{1, 2} {
 		for _, al := range []string{"none", "default25"} {
-			cs = append(cs, cfg{a, 7, al, false})
+			cs = append(cs, cfg{Allowed: a, W: 7, Alloc: al})
 		}
 	}
 	return cs
@@ -344,7 +402,7 @@ func TestCheck(t *testing.T) {
 		replayFile(t, r, f)
 		return
 	}
-	r.Rule = fmt.Sprintf("explicit-state BFS to depth %d over histories of {req(remedy r1|r2, group A|B|Z|absent), tick(to the next grid boundary exactly | 1ns | W/2 | W)} for %d configurations (allowed 1-3, W 1, 2 and 7 s, allocation none / table with default allow|block|use_default_allocation); every transition runs the real plugin (fresh instance + replay) in a virtual-time bubble; plus the exhaustive allocation table allowed 1..300 x pct 1..100 and all schedules (<=2 preemptions) of 3 concurrent first requests on one key; distinct = state keys (implementation dump + reference + phase)", depth, len(cs))
+	r.Rule = fmt.Sprintf("explicit-state BFS to depth %d over histories of {req(remedy r1|r2, group A|B|Z|absent), tick(to the next grid boundary exactly | 1ns | W/2 | W)} for %d configurations (allowed 1-3, W 1, 2 and 7 s, allocation none / table with default allow|block|use_default_allocation); every transition runs the real plugin (fresh instance + replay) in a virtual-time bubble; plus the throttling remedy at the end of every policy-mode chain of <=2 authentication remedies through the real runner; plus the exhaustive allocation table allowed 1..300 x pct 1..100 and all schedules (<=2 preemptions) of 3 concurrent first requests on one key; distinct = state keys (implementation dump + reference + phase)", depth, len(cs))
 	r.Assume("window-size changes (8 further configurations: r1's window toggles between W and 2W): per (remedy, group), from the change until the end of the aligned window of the new size that contains its first request after the change, only the bound is asserted (on the requests handled since the change); after that full exactness", "virtual time via testing/synctest; the plugin's clock is clock.RealClock inside the bubble")
 	if r.Parallel(t, 16) {
 		r.Finish(t)
@@ -355,10 +413,18 @@ func TestCheck(t *testing.T) {
 			continue
 		}
 		al := alphabet(c)
+		depth := depth
+		if c.Prefill > 0 {
+			depth = mc.Pick(r, 4, 5)
+		}
 		st, _ := mc.BFS(r, mc.BFSOpts{Name: c.String(), NEvents: len(al), MaxDepth: depth,
 			EvName: func(e int) string { return al[e].String() },
 			Run: func(body func(mc.Model)) {
-				synctest.Test(t, func(t *testing.T) { body(newModel(c)) })
+				synctest.Test(t, func(t *testing.T) {
+					m := newModel(c)
+					m.prefill()
+					body(m)
+				})
 			},
 			Classify: func(fail string, path []int) string {
 				clause := strings.SplitN(fail, " ", 2)[0]
@@ -374,6 +440,9 @@ func TestCheck(t *testing.T) {
 	}
 	if sh, _ := r.Shard(); sh == 0 {
 		allocationTable(t, r)
+	}
+	if sh, n := r.Shard(); sh == 1%n {
+		chainFamily(t, r)
 	}
 	r.Add("traces_validated_against_impl", r.Counters["transitions"])
 	schedules(t, r)
